@@ -147,9 +147,6 @@ func resolveClient(p *Prog) *clientModel {
 	need(m.Reg, "client registration function (inserts into the table)")
 	need(m.Del, "client delete function")
 	need(m.Handle, "(*clientTransaction).handle")
-	if m.NextTimeout == nil {
-		m.soft = append(m.soft, "(*clientTransaction).nextTimeout")
-	}
 	// reader: the go target in NewClient
 	if m.NewClient != nil {
 		eachInstr(m.NewClient, func(b *ssa.BasicBlock, i int, in ssa.Instruction) {
